@@ -1,17 +1,21 @@
-(* C04 -- character data is decoded per XML 1.0: the text machine (TextBuffer with the pending-CR
-   flag, as driven by process_text) produces, for every run of literal bytes and referenced
-   characters, the decoding of Spec/Text.v: literal stretches normalised as source text, referenced
-   characters kept.  (A referenced character never encodes to zero bytes: encode_utf8_nonempty.)
-   Statements pinned here; proofs in Proofs/TextMachine.v. *)
-From Coq Require Import List NArith Bool.
+(* C04 -- character data is decoded per XML 1.0, one text node per run.
+   (1) the text machine (TextBuffer with the pending-CR flag, as driven by process_text) produces,
+   for every run of literal bytes and referenced characters, the decoding of Spec/Text.v; a referenced
+   character never encodes to zero bytes (encode_utf8_nonempty); the same on the model's own loop;
+   (2) CDATA sections are normalised like literals; (3) any number of fragments of one run end up in
+   exactly one Text node holding their concatenation (after_text protocol).
+   Statements are pinned here (copied verbatim from the proof files by tools/pin_props.py);
+   each is re-proved by `exact` and followed by Print Assumptions. *)
+From Coq Require Import Ascii String.
+From Coq Require Import List NArith Bool PeanoNat Sorted.
 Import ListNotations.
-From RX.Model Require Import Base Stream Builder Parse.
+From RX Require Import Generated.
+From RX.Model Require Import Base CharClass Stream Tokenizer Doc Builder Parse Api.
 From RX.Spec Require Import Text.
-From Coq Require Import PeanoNat.
-From RX.Model Require Import Tokenizer Doc.
 From RX.Proofs Require Import TextMachine TextMerge.
 Open Scope N_scope.
 
+(* ---- Proofs/TextMachine.v ---- *)
 Theorem C04_text_chunks_decode_partial :
   forall cs,
   Forall (fun c => c <> CRef []) cs ->
@@ -41,23 +45,7 @@ Theorem C04_run_text_empty_iff :
 Proof. exact run_text_empty_iff. Qed.
 Print Assumptions C04_run_text_empty_iff.
 
-(* the same, on the model's own loop: for a text token whose chunks (as read by
-   parse_next_chunk) contain no general entity reference, process_text appends exactly one
-   text fragment, the decoding of the chunks *)
-Theorem C04_process_text_with_decode_top :
-  forall (text : bytes) (pc : Stream.stream -> context -> res (Stream.stream * context))
-         (t : slice) (r : N * N) (c : context) (s0 : Stream.stream) (cs : list chunk),
-  existsb (fun x => (x =? 38) || (x =? 13)) (slice_bytes text t) = true ->
-  stream_from_substr text (fst r) (snd r) = Ok s0 ->
-  reads text (c_entities c) s0 cs ->
-  (0 <? ld_depth (c_ld c)) = false ->
-  process_text_with text pc t r c = OutOfFuel \/
-  process_text_with text pc t r c = text_result r c (decode_chunks cs).
-Proof. exact process_text_with_decode_top. Qed.
-Print Assumptions C04_process_text_with_decode_top.
-
-
-(* ---- one Text node per run: the after_text protocol of the builder (Proofs/TextMerge.v) ---- *)
+(* ---- Proofs/TextMerge.v ---- *)
 Theorem C04_fragments_merge :
   forall text t0 ts r c c0 c1 c2,
   c_after_text c = [] ->
@@ -124,3 +112,19 @@ Theorem C04_process_cdata_spec :
   append_text (if mem_b 13 (slice_bytes text txt) then CowOwned (Text.norm_eol (slice_bytes text txt)) else CowBorrowed txt) r c.
 Proof. exact process_cdata_spec. Qed.
 Print Assumptions C04_process_cdata_spec.
+
+
+(* the same, on the model's own loop: for a text token whose chunks (as read by parse_next_chunk)
+   contain no general entity reference, process_text appends exactly one text fragment, the
+   decoding of the chunks *)
+Theorem C04_process_text_with_decode_top :
+  forall (text : bytes) (pc : Stream.stream -> context -> res (Stream.stream * context))
+         (t : slice) (r : N * N) (c : context) (s0 : Stream.stream) (cs : list chunk),
+  existsb (fun x => (x =? 38) || (x =? 13)) (slice_bytes text t) = true ->
+  stream_from_substr text (fst r) (snd r) = Ok s0 ->
+  reads text (c_entities c) s0 cs ->
+  (0 <? ld_depth (c_ld c)) = false ->
+  process_text_with text pc t r c = OutOfFuel \/
+  process_text_with text pc t r c = text_result r c (decode_chunks cs).
+Proof. exact process_text_with_decode_top. Qed.
+Print Assumptions C04_process_text_with_decode_top.
